@@ -124,14 +124,14 @@ def parsePOp (paths : List (Bool × String)) (hdrName : String) (ws : List Strin
       let ra ← (kv ws "ra").map optDec
       let hdrs := (match ra with | some v => [(hdrName, v)] | none => [])
                   ++ (match tag with | some v => [("X-Tag", v)] | none => [])
-      pure (.resp m u (selectParams paths pp) (joinParams paths pp)
+      pure (.resp m u (selectParams paths pp)
               { id := id, status := st, body := body, tag := tag, ra := ra, raNs := ra.bind parseDecNs }
               body.utf8ByteSize (calcSize m u id body hdrs))
     | "req" :: ws => do
       let m ← kvS ws "m"
       let u ← kvS ws "u"
       let pp ← (kv ws "pp").bind parsePP
-      pure (.req m u (selectParams paths pp) (joinParams paths pp))
+      pure (.req m u (selectParams paths pp))
     | _ => none
 
 def fmtFire : FireRes → String
@@ -182,7 +182,7 @@ def runStep (s : Mode) (line : String) : Mode × String :=
       | none => (s, "bad-op")
     | .throttle cfg c =>
       match parsePOp [] "" ws with
-      | some op => (.throttle cfg (tstep cfg c op).1, fmtPOut (tstep cfg c op).2)
+      | some op => (.throttle cfg (tstep absTtlFloat cfg c op).1, fmtPOut (tstep absTtlFloat cfg c op).2)
       | none => (s, "bad-op")
 
 /-! ### judge -/
@@ -306,15 +306,11 @@ def judgeFinish (s : JudgeSt) : String :=
       if holdsRev cfg hist then "ok"
       else s!"fail - cache: hit-not-justified-by-last-fresh-store-or-size-clause at {describe (firstBad (recOk cfg) (·.t) hist)}"
     | .caching cfg _ hist =>
-      if choldsRev false cfg hist then "ok"
-      else if choldsRev true cfg hist then
-        s!"fail F12a caching: replay for different selected path parameters with the same joined string at {describe (firstBad (cRecOk false cfg) (·.t) hist)}"
-      else s!"fail - caching: replay-not-justified-or-size-clause at {describe (firstBad (cRecOk true cfg) (·.t) hist)}"
+      if choldsRev cfg hist then "ok"
+      else s!"fail - caching: replay-not-justified-or-size-clause at {describe (firstBad (cRecOk cfg) (·.t) hist)}"
     | .throttle cfg hist =>
-      if tholdsRev false cfg hist then "ok"
-      else if tholdsRev true cfg hist then
-        s!"fail F12b throttling: absolute Retry-After replayed after the provider's instant (within the sub-second part of the store time) at {describe (firstBad (tRecOk false cfg) (·.t) hist)}"
-      else s!"fail - throttling: replay-not-justified-or-wrong-retry-after at {describe (firstBad (tRecOk true cfg) (·.t) hist)}"
+      if tholdsRev cfg hist then "ok"
+      else s!"fail - throttling: replay-not-justified-or-wrong-retry-after at {describe (firstBad (tRecOk cfg) (·.t) hist)}"
 
 def main (args : List String) : IO Unit :=
   match args with
